@@ -2,6 +2,7 @@ package checks
 
 import (
 	"fmt"
+	"sort"
 	"strings"
 
 	"github.com/uhn/ggql/pkg/ggql"
@@ -729,7 +730,19 @@ func runC17(c *run.Ctx) {
 			ms.Reindex()
 			c.Bucket("steering", "directive-with-a-reason-argument-next-to-deprecated")
 		}
-		sdl := ms.SDL(model.SDLOpts{BlockDesc: i%3 == 0})
+		extSchema := ""
+		if i%7 == 3 && !ms.ExplicitSchema && ms.Mutation == "Mutation" {
+			// no schema definition: the mutation root has a name of its own and is attached by `extend schema`, in the same
+			// document as the type it names
+			if mt := ms.Type("Mutation"); mt != nil {
+				mt.Name = "MutZz"
+				ms.Mutation = "MutZz"
+				ms.Reindex()
+				extSchema = "\nextend schema {\n  mutation: MutZz\n}\n"
+				c.Bucket("steering", "implicit-schema-extended-with-a-root-of-another-name")
+			}
+		}
+		sdl := ms.SDL(model.SDLOpts{BlockDesc: i%3 == 0}) + extSchema
 		nontriv := strings.Contains(sdl, "@deprecated") || strings.Contains(sdl, " = ") || strings.Contains(sdl, "directive @")
 		roots := map[string]*ggql.Root{}
 		okLoad := true
@@ -831,6 +844,17 @@ func runC17(c *run.Ctx) {
 				}
 			}
 			if bad {
+				break
+			}
+		}
+		if bad {
+			continue
+		}
+		for _, bk := range []string{"reflect", "any"} {
+			c.Count("nested_deprecation_walks", 1)
+			if d := c17NestedDeprecation(ms, roots[bk]); d != "" {
+				rep("c17-full", d, map[string]interface{}{"backend": bk})
+				bad = true
 				break
 			}
 		}
@@ -952,4 +976,73 @@ func c17BuiltinDirectiveRedefined(c *run.Ctx) {
 			}
 		}
 	}
+}
+
+// c17NestedDeprecation: one request walks the fields of a type with one includeDeprecated setting and, below each field,
+// the fields of the field's type with the other setting (a type that refers to itself meets both settings in one walk).
+// Every list is judged by the setting written on ITS selection.
+func c17NestedDeprecation(ms *model.Schema, root *ggql.Root) string {
+	names := func(t *model.TypeDef, dep bool) string {
+		var out []string
+		for _, f := range t.Fields {
+			if d, _, _ := model.Deprecated(f.Dirs); d && !dep {
+				continue
+			}
+			out = append(out, f.Name)
+		}
+		sort.Strings(out)
+		return strings.Join(out, ",")
+	}
+	for _, t := range ms.Types {
+		if t.Kind != model.Object && t.Kind != model.Interface {
+			continue
+		}
+		for _, outer := range []bool{true, false} {
+			text := fmt.Sprintf(`{ __type(name: %q) { fields(includeDeprecated: %v) { name type { kind name fields(includeDeprecated: %v) { name } } } } }`, t.Name, outer, !outer)
+			var res map[string]interface{}
+			if pv, _ := run.Protect(func() { res = root.ResolveString(text, "", nil) }); pv != nil {
+				return fmt.Sprintf("%s: panic: %v", text, pv)
+			}
+			if res["errors"] != nil {
+				return fmt.Sprintf("%s: errors: %v", text, res["errors"])
+			}
+			data, _ := ref.Canon(res["data"]).(map[string]interface{})
+			tm, _ := data["__type"].(map[string]interface{})
+			fl, _ := tm["fields"].([]interface{})
+			var got []string
+			for _, fe := range fl {
+				fm, _ := fe.(map[string]interface{})
+				fname, _ := fm["name"].(string)
+				got = append(got, fname)
+				fd := t.Field(fname)
+				if fd == nil {
+					return fmt.Sprintf("%s: lists a field %q the type does not have", text, fname)
+				}
+				ty, _ := fm["type"].(map[string]interface{})
+				if fd.Type.List || fd.Type.NonNull {
+					continue // a wrapper has no fields
+				}
+				ut := ms.Type(fd.Type.Name)
+				if ut == nil || (ut.Kind != model.Object && ut.Kind != model.Interface) {
+					continue
+				}
+				var inner []string
+				il, _ := ty["fields"].([]interface{})
+				for _, ie := range il {
+					im, _ := ie.(map[string]interface{})
+					in, _ := im["name"].(string)
+					inner = append(inner, in)
+				}
+				sort.Strings(inner)
+				if want := names(ut, !outer); strings.Join(inner, ",") != want {
+					return fmt.Sprintf("%s: below field %s the fields of %s (includeDeprecated: %v) are [%s], expected [%s]", text, fname, ut.Name, !outer, strings.Join(inner, ","), want)
+				}
+			}
+			sort.Strings(got)
+			if want := names(t, outer); strings.Join(got, ",") != want {
+				return fmt.Sprintf("%s: fields are [%s], expected [%s]", text, strings.Join(got, ","), want)
+			}
+		}
+	}
+	return ""
 }
